@@ -158,7 +158,7 @@ func (s *Modifier) ModifyResponse(res *http.Response) error {
 				err = nil
 			}
 			if err != nil || n <= 0 {
-				res.StatusCode = http.StatusRequestedRangeNotSatisfiable
+				notSatisfiable(res, info.Size())
 				return nil
 			}
 			if n > info.Size() {
@@ -172,24 +172,24 @@ func (s *Modifier) ModifyResponse(res *http.Response) error {
 
 		rs := strings.Split(rng, "-")
 		if len(rs) != 2 {
-			res.StatusCode = http.StatusRequestedRangeNotSatisfiable
+			notSatisfiable(res, info.Size())
 			return nil
 		}
 		// A position that is not a number makes the range set invalid.
 		start, err := position(rs[0])
 		if err != nil {
-			res.StatusCode = http.StatusRequestedRangeNotSatisfiable
+			notSatisfiable(res, info.Size())
 			return nil
 		}
 
 		end, err := position(rs[1])
 		if err != nil {
-			res.StatusCode = http.StatusRequestedRangeNotSatisfiable
+			notSatisfiable(res, info.Size())
 			return nil
 		}
 
 		if start > end || start < 0 || int64(start) >= info.Size() {
-			res.StatusCode = http.StatusRequestedRangeNotSatisfiable
+			notSatisfiable(res, info.Size())
 			return nil
 		}
 		// A last position beyond the end means "through the last byte".
@@ -259,6 +259,16 @@ func (s *Modifier) ModifyResponse(res *http.Response) error {
 	res.Header.Set("Content-Type", fmt.Sprintf("multipart/byteranges; boundary=%s", mpw.Boundary()))
 
 	return nil
+}
+
+// notSatisfiable turns res into a 416 response of its own: the body that was
+// to be replaced is closed and must not travel under the new status.
+func notSatisfiable(res *http.Response, size int64) {
+	res.StatusCode = http.StatusRequestedRangeNotSatisfiable
+	res.Status = fmt.Sprintf("%d %s", res.StatusCode, http.StatusText(res.StatusCode))
+	res.Header.Set("Content-Range", fmt.Sprintf("bytes */%d", size))
+	res.ContentLength = 0
+	res.Body = http.NoBody
 }
 
 // position parses a byte position. Digits that do not fit an int stand for a
